@@ -247,9 +247,15 @@ def _rename_node(n, pi):
 def rename_history(draw, mapping, kind, prefix):
     """A history of with_inputs/with_outputs batches realising `mapping` (current -> final), possibly through
     temporary names, with optional identity detours (swap applied twice)."""
+    same = sorted(a for a, b in mapping.items() if a == b and a not in set(mapping.values()) - {a})
     mapping = {a: b for a, b in mapping.items() if a != b}
     steps = []
     cur = list(mapping)
+    if len(same) >= 2 and prob(draw, 0.3):
+        # names that keep their name are exchanged and exchanged back first (every name ends where it started)
+        a, b = draw(st.permutations(same))[:2]
+        swap = {"kind": kind, "map": {a: b, b: a}}
+        steps += [swap, dict(swap)]
     if not mapping:
         return steps
     style = draw(st.sampled_from(["single", "via_temp", "staged"]))
